@@ -63,6 +63,11 @@ func generate(prop, tier string, seed uint64, run int) *Scenario {
 	case "C01":
 		return genMix(prop, seed, run, mixOpts{lagfree: 0.3, apiChurn: 0.12, spellings: pick < 25, shapes: allShapes, overflow: 0.12, maxOps: 36, watchFiles: 0.3, worldTasks: 3, withOps: 0.0, burst: 0.04, bigBurst: tier == "thorough"})
 	case "C02":
+		if pick >= 88 {
+			// recursive watches: a reported path must be the entry's true path
+			// (seeds C02-f, C02-h break C02 for recursive watches only)
+			return genRecurse(prop, seed, run, tier)
+		}
 		return genMix(prop, seed, run, mixOpts{lagfree: 0.25, apiChurn: 0.3, spellings: pick < 25, shapes: allShapes, overflow: 0.05, maxOps: 36, watchFiles: 0.4, worldTasks: 2, twoClients: 0.35})
 	case "C03":
 		return genMix(prop, seed, run, mixOpts{lagfree: 0.2, apiChurn: 0.05, shapes: []int{0, 1}, maxOps: 40, watchFiles: 0.4, worldTasks: 1, burst: 0.04, overflow: 0.15})
